@@ -231,18 +231,18 @@ func (r *Report) finish(verifDir string) int {
 		ruleCounts[k] = perRule[k]
 	}
 	cov := map[string]interface{}{
-		"explanation":         r.Explain,
-		"obligations":         len(r.Obs),
-		"discharged":          discharged,
-		"evaluations":         len(r.Obs),
-		"distinct_nontrivial": len(nontrivial),
-		"rule":                "one evaluation = one rule instance (property|rule|construct) decided on /repo's current SSA; distinct = distinct (rule,construct) keys; non-trivial = the verdict needed a path enumeration, role/call-graph or channel-class argument (not a mere lookup)",
-		"samples":             samples,
+		"explanation":          r.Explain,
+		"obligations":          len(r.Obs),
+		"discharged":           discharged,
+		"evaluations":          len(r.Obs),
+		"distinct_nontrivial":  len(nontrivial),
+		"rule":                 "one evaluation = one rule instance (property|rule|construct) decided on /repo's current SSA; distinct = distinct (rule,construct) keys; non-trivial = the verdict needed a path enumeration, role/call-graph or channel-class argument (not a mere lookup)",
+		"samples":              samples,
 		"obligations_per_rule": ruleCounts,
-		"inventory":           r.Inv,
-		"checker_cmd":         strings.Join(os.Args, " "),
-		"trusted_base":        []string{"go/types", "golang.org/x/tools/go/ssa v0.29.0", "VTA call graph with CHA fallback for client round-trip types", "Go channel/WaitGroup semantics"},
-		"known_findings":      len(usedKnown),
+		"inventory":            r.Inv,
+		"checker_cmd":          strings.Join(os.Args, " "),
+		"trusted_base":         []string{"go/types", "golang.org/x/tools/go/ssa v0.29.0", "VTA call graph with CHA fallback for client round-trip types", "Go channel/WaitGroup semantics"},
+		"known_findings":       len(usedKnown),
 	}
 	ev := map[string]interface{}{
 		"property_id": r.Property,
